@@ -662,6 +662,24 @@ static void stage_seq(void) {
     /* x followed by each proper prefix of x (truncated second copy) */
     for (size_t k = 1; k < x.n && k < 24; k++) c14_pair(x.p, x.n, x.p, k);
   }
+  /* the dictionary of well-known encodings, every entry, as x (labels and magic numbers an implementation might treat specially) */
+  for (uint64_t u = nsys - gen_dict_count(); u < nsys; u++) {
+    if ((int)(u % (uint64_t)O.nshards) != O.shard) continue;
+    rnode* t = gen_systematic(u);
+    if (!t) continue;
+    vb_reset(&x);
+    ref_encode_src(t, &x);
+    rn_free(t);
+    c14_pair(x.p, x.n, NULL, 0);
+    for (int b = 0; b < 256; b++) { uint8_t y = (uint8_t)b; c14_pair(x.p, x.n, &y, 1); }
+    for (int i = 0; i < POOL; i++) { c14_pair(x.p, x.n, items[i].p, items[i].n); c14_pair(x.p, x.n, garbage[i].p, garbage[i].n); }
+    c14_pair(x.p, x.n, x.p, x.n);
+    struct vh_buf seq[3] = {{0}, {0}, {0}};
+    vb_put(&seq[0], x.p, x.n); vb_u8(&seq[1], 0x01); vb_put(&seq[2], x.p, x.n);
+    c14_sequence(seq, 3);
+    for (int i = 0; i < 3; i++) vb_free(&seq[i]);
+    VH_COUNT("dictionary_items_as_x", 1);
+  }
   /* concatenations of up to 6 items */
   uint64_t nseq = O.budget2 ? O.budget2 : (O.thorough ? 200000 : 20000);
   for (uint64_t u = 0; u < nseq; u++) {
@@ -724,7 +742,12 @@ static void hugebuf_case(const uint8_t* x, size_t nx, size_t claimed) {
   if (ia && ra.read == nx) {
     memcpy(reg, x, nx);
     memset(reg + nx, 0xff, 64); /* what follows x must not matter */
+    /* ... nor how the buffer ends: alternately a break byte and a zero as its very last byte */
+    uint8_t last_saved = reg[claimed - 1];
+    bool poke_last = claimed > nx + 64 && ((claimed ^ nx) & 1);
+    if (poke_last) reg[claimed - 1] = 0xff;
     cbor_item_t* ib = cbor_load(reg, claimed, &rb);
+    if (poke_last) reg[claimed - 1] = last_saved;
     if (!ib) vh_violation("huge-buffer-changes-acceptance", "x decodes alone (read=%zu) but in a %zu-byte buffer cbor_load fails with %s at %zu", ra.read, claimed, code_name((int)rb.error.code), rb.error.position);
     else {
       if (rb.read != ra.read) vh_violation("huge-buffer-changes-read", "read=%zu alone, %zu in a %zu-byte buffer", ra.read, rb.read, claimed);
@@ -743,7 +766,8 @@ static void hugebuf_case(const uint8_t* x, size_t nx, size_t claimed) {
 }
 static void stage_hugebuf(void) {
   uint64_t nsys = gen_systematic_count();
-  static const size_t sizes[] = {((size_t)1 << 32) - 1, (size_t)1 << 32, ((size_t)1 << 32) + 1, ((size_t)1 << 32) + 2, ((size_t)1 << 32) + 5, ((size_t)1 << 32) + 9, ((size_t)3 << 31) + 3, (size_t)1 << 33, ((size_t)1 << 33) + 11};
+  static const size_t sizes[] = {65537, (size_t)1 << 20, ((size_t)1 << 20) + 7, (size_t)1 << 24, ((size_t)1 << 28) + 1, ((size_t)1 << 31) - 1, (size_t)1 << 31, ((size_t)1 << 31) + 1,
+                                 ((size_t)1 << 32) - 1, (size_t)1 << 32, ((size_t)1 << 32) + 1, ((size_t)1 << 32) + 2, ((size_t)1 << 32) + 5, ((size_t)1 << 32) + 9, ((size_t)3 << 31) + 3, (size_t)1 << 33, ((size_t)1 << 33) + 11};
   struct vh_buf x = {0};
   uint64_t stride = O.thorough ? 3 : 29;
   uint64_t unit = 0;
